@@ -10,6 +10,7 @@ import (
 	"fmt"
 	"io"
 	"strconv"
+	"time"
 
 	"rare/pkg/readahead"
 	"simrt"
@@ -425,6 +426,13 @@ func c04One(rc *RunCtx) (c04Case, uint64, bool) {
 
 func init() {
 	worlds["C04"] = func(rc *RunCtx) {
+		if rc.Mode == simrt.ModeFree || (rc.Index/2)%8 == 7 {
+			// the scanners as the pipeline uses them: one per input, several at a time (reader goroutines), their lines held in
+			// batches and matches by other goroutines while later lines and other files are scanned. Every retained line is
+			// re-read after the run (and, in the race leg, any data race on scanner memory is reported)
+			c04PipelineWorld(rc)
+			return
+		}
 		const per = 16
 		c04PrevHeld, c04PrevSnap, c04PrevDesc = nil, nil, "" // runs are independent of each other
 		var samples []c04Case
@@ -446,4 +454,38 @@ func init() {
 		rc.Sample = samples
 		rc.EndReasons["scanner-ended"]++
 	}
+}
+
+func c04PipelineWorld(rc *RunCtx) {
+	sc := genPipeScenario(rc, true, 40)
+	// the default matcher and the whole line as key: nothing but the scanner's bytes is looked at
+	sc.MatcherKind, sc.Pattern, sc.Extract, sc.Ignores, sc.IgnoreCase = 0, "", "{0}", nil, false
+	if !sc.Stdin && sc.Readers < 2 && len(sc.Inputs) > 1 {
+		sc.Readers = 2 + rc.Tape.W(2)
+	}
+	rc.Sample = sc.describe()
+	out := runPipe(rc, sc, simrt.Opts{MaxSteps: 400000, IdleLimit: time.Hour, FreeLimit: 24 * time.Hour})
+	if !rc.StdEnd(out.Sim, "pipeline-termination") {
+		return
+	}
+	ref := buildRef(sc)
+	bad := 0
+	for i := range out.Matches {
+		m := &out.Matches[i]
+		ls, ok := ref.Lines[m.Source]
+		if !ok || m.LineNumber < 1 || int(m.LineNumber) > len(ls) {
+			continue // source and numbering are C02's subject
+		}
+		if want := ls[m.LineNumber-1].Text; m.Line != want {
+			bad++
+			if bad <= 2 {
+				rc.Violate("aliasing-in-pipeline", "%s line %d was handed out by its scanner, held in a batch and a match, and reads %q after the run; the input's line is %q (readers=%d, %d inputs)",
+					m.Source, m.LineNumber, clip(m.Line, 100), clip(want, 100), sc.Readers, len(sc.Inputs))
+			}
+		}
+	}
+	rc.Nontrivial = pipeNontrivial(out, ref)
+	rc.Cases = 1
+	rc.EndReasons["pipeline-ended"]++
+	rc.Logf("pipeline retained=%d bad=%d", len(out.Matches), bad)
 }
